@@ -3,6 +3,7 @@ package main
 import (
 	"bytes"
 	"context"
+	"encoding/json"
 	"flag"
 	"fmt"
 	"go/ast"
@@ -14,6 +15,7 @@ import (
 	"os/exec"
 	"path/filepath"
 	"regexp"
+	"runtime"
 	"sort"
 	"strings"
 	"sync"
@@ -149,6 +151,20 @@ func (g *c04gen) setup(out *[][]int64) []*c04op {
 	if g.r.chance(50) {
 		add(asg(c04Fld(g.lvS(0), 2), g.rhsOf(c04TLI, 1)))
 	}
+	for n := 0; n < 3; n++ {
+		if g.r.chance(60) {
+			add(asg(c04Idx(c04Var(12, c04TA3E), c04IntLit(int64(n))), c04Pure(g.rvOf(c04TAny, 1))))
+		}
+	}
+	if g.r.chance(70) {
+		add(asg(c04Var(13, c04TLE), &c04rhs{K: "slicelit", T: c04TLE, L: []*c04ex{g.rvOf(c04TAny, 1), g.rvOf(c04TAny, 1), g.rvOf(c04TAny, 1)}}))
+	}
+	if g.r.chance(50) {
+		add(asg(c04Var(14, c04TME), &c04rhs{K: "maplit", T: c04TME, L: []*c04ex{c04KeyLit(int64(g.r.intn(4)))}, L2: []*c04ex{g.rvOf(c04TAny, 1)}}))
+	}
+	if g.r.chance(50) {
+		add(asg(g.lvOf(c04TAny, 1), c04Pure(g.rvOf(c04TAny, 1))))
+	}
 	return ops
 }
 
@@ -171,6 +187,11 @@ func c04Generate(id int, seed uint64, region string, steps int) *c04hist {
 		var o *c04op
 		if region != "" && (i == steps/3 || i == (2*steps)/3 || r.chance(12)) {
 			o = g.regionOp(&out)
+			if o != nil && c04OpInMultiDirect(o) && o.Lvs[0].T == c04TAny {
+				// doComposite decides "destination is an interface" from the first left-hand operand of
+				// the statement: outside the (untyped) Coq grammar
+				o.Unmodelled = true
+			}
 		}
 		if o == nil {
 			o = g.next(2, &out)
@@ -262,6 +283,15 @@ func (g *c04gen) regionOp(out *[][]int64) *c04op {
 			default:
 				o.Lvs, o.Rvs = []*c04ex{g.lvOf(c04TMI, 1), g.lvOf(c04TPS, 1)}, []*c04ex{c04Nil(c04TMI), c04Nil(c04TPS)}
 			}
+		case "multi-assign-iface":
+			o = &c04op{K: "multi"}
+			l1, l2 := g.lvOf(c04TAny, 1), g.lvOf(c04TAny, 1)
+			if g.r.bool() {
+				o.Lvs, o.Rvs = []*c04ex{l1, l2}, []*c04ex{c04Load(l2), c04Load(l1)}
+			} else {
+				o.Lvs, o.Rvs = []*c04ex{l1, g.lvOf(c04TInt, 1)}, []*c04ex{c04Load(l2), c04IntLit(g.smallInt())}
+			}
+			o.Unmodelled = true
 		case "append-multi-alias":
 			// append within capacity whose later arguments read the cells the earlier ones overwrite
 			lo := g.r.intn(3)
@@ -362,9 +392,9 @@ func runC04(args []string) error {
 
 	// ---------------------------------------------------------------- run both sides
 	t0 := time.Now()
-	parallelMap(len(hs), 0, func(i int) {
-		hs[i].impl = runYaegi(hs[i].Src, yaegiOpts{Timeout: 60 * time.Second})
-	})
+	if err := c04RunYaegi(hs, sm); err != nil {
+		return err
+	}
 	tY := time.Since(t0)
 	t0 = time.Now()
 	refs, err := c04GoRef(hs, 60*time.Second)
@@ -473,6 +503,9 @@ func runC04(args []string) error {
 			return err
 		}
 	}
+	if len(sm.Samples) == 0 && len(hs) > 0 {
+		sm.Samples = append(sm.Samples, sm.CaseIndex[fmt.Sprint(hs[0].ID)])
+	}
 	sm.DistinctNontriv = len(distinct)
 	sm.Rule = "seeded operation histories (5-60 steps plus a random set-up) over the pool of DESIGN.md D.2, the whole pool printed after every step; " +
 		"distinct = distinct program texts; non-trivial = at least 5 operations of at least 3 different kinds"
@@ -525,7 +558,7 @@ func init() {
 }
 
 func c04Plan(tier string, seed uint64) (ids []int, seeds []uint64, regions []string, steps []int) {
-	nMain, nRegion := 230, 7
+	nMain, nRegion := 205, 6
 	if tier == "thorough" {
 		nMain, nRegion = 6000, 150
 	}
@@ -556,7 +589,7 @@ func c04Plan(tier string, seed uint64) (ids []int, seeds []uint64, regions []str
 }
 
 var c04Regions = []string{"var-struct-lit", "multi-assign-call-or-lit", "multi-assign-map-entry", "multi-assign-nil", "append-multi-alias",
-	"range-ptr-array", "addr-of-ptr-array-elem", "arraylit-ptr-array-field", "method-value-receiver-alias", "defer-arg-alias", "named-result-alias", "interface-boxing-alias"}
+	"range-ptr-array", "addr-of-ptr-array-elem", "arraylit-ptr-array-field", "method-value-receiver-alias", "defer-arg-alias", "named-result-alias", "interface-boxing-alias", "multi-assign-iface", "iface-holds-type-with-methods", "append-nil-elem"}
 
 func c04Regenerate(tier string, seed uint64, id int) *c04hist {
 	ids, seeds, regions, steps := c04Plan(tier, seed)
@@ -692,11 +725,21 @@ func c04GoRef(hs []*c04hist, timeout time.Duration) (map[int]outcome, error) {
 		}
 	}
 	os.MkdirAll(filepath.Join(dir, "bin"), 0o755)
-	cmd := exec.Command("go", "build", "-o", filepath.Join(dir, "bin")+"/", "./...")
-	cmd.Dir = dir
-	cmd.Env = append(os.Environ(), "GOFLAGS=-mod=mod", "GOPROXY=off", "GOSUMDB=off", "GOTOOLCHAIN=local", "GO111MODULE=on")
-	if bout, err := cmd.CombinedOutput(); err != nil {
-		return nil, fmt.Errorf("go build of the reference programs failed: %v\n%s", err, bout)
+	build := func(extra ...string) ([]byte, error) {
+		cmd := exec.Command("go", append(append([]string{"build", "-o", filepath.Join(dir, "bin") + "/"}, extra...), "./...")...)
+		cmd.Dir = dir
+		cmd.Env = append(os.Environ(), "GOFLAGS=-mod=mod", "GOPROXY=off", "GOSUMDB=off", "GOTOOLCHAIN=local", "GO111MODULE=on")
+		return cmd.CombinedOutput()
+	}
+	if bout, err := build(); err != nil {
+		if !strings.Contains(string(bout), "internal compiler error") {
+			return nil, fmt.Errorf("go build of the reference programs failed: %v\n%s", err, bout)
+		}
+		// a bug of the Go compiler's optimiser on one of the programs (seen: "nilcheck still has 1 uses"):
+		// build without optimisation, the meaning of the programs is the same
+		if bout2, err2 := build("-gcflags=-N"); err2 != nil {
+			return nil, fmt.Errorf("go build of the reference programs failed: %v\n%s\n(without optimisation) %v\n%s", err, bout, err2, bout2)
+		}
 	}
 	var mu sync.Mutex
 	parallelMap(len(jobs), 0, func(i int) {
@@ -757,7 +800,7 @@ func init() {
 // c04GeneralGrow: the growth policy of the Go run-time for the three element sizes and small capacities.
 func c04GeneralGrow() string {
 	general := map[[3]int]int{}
-	for ek := 0; ek < 3; ek++ {
+	for ek := 0; ek < 4; ek++ {
 		for c := 0; c <= 48; c++ {
 			for n := c + 1; n <= c+4; n++ {
 				general[[3]int{ek, c, n}] = c04RealGrow(ek, c, c, n)
@@ -765,4 +808,97 @@ func c04GeneralGrow() string {
 		}
 	}
 	return c04CoqGrow(general)
+}
+
+// ---------------------------------------------------------------- yaegi in child processes
+
+func init() {
+	register("c04-yaegi-batch", "internal: evaluate the given Go source files with yaegi, one JSON outcome per line", func(args []string) error {
+		enc := json.NewEncoder(os.Stdout)
+		for _, f := range args {
+			b, err := os.ReadFile(f)
+			if err != nil {
+				return err
+			}
+			r := runYaegi(string(b), yaegiOpts{Timeout: 60 * time.Second})
+			if err := enc.Encode(map[string]any{"file": filepath.Base(f), "outcome": r}); err != nil {
+				return err
+			}
+		}
+		return nil
+	})
+}
+
+// c04RunYaegi evaluates the histories in child processes of this binary (one interpreter at a time
+// per process), so that a fatal error of the host (stack overflow, ...) on one program is observed
+// as the outcome of that program instead of killing the harness.
+func c04RunYaegi(hs []*c04hist, sm *summary) error {
+	dir, err := os.MkdirTemp("", "vh-c04y-*")
+	if err != nil {
+		return err
+	}
+	defer os.RemoveAll(dir)
+	self, err := os.Executable()
+	if err != nil {
+		return err
+	}
+	nproc := runtime.NumCPU()
+	if nproc > len(hs) {
+		nproc = len(hs)
+	}
+	chunks := make([][]int, nproc)
+	for i, h := range hs {
+		if err := os.WriteFile(filepath.Join(dir, fmt.Sprintf("h%d.go", h.ID)), []byte(h.Src), 0o644); err != nil {
+			return err
+		}
+		chunks[i%nproc] = append(chunks[i%nproc], i)
+	}
+	done := make([]bool, len(hs))
+	var mu sync.Mutex
+	parallelMap(nproc, nproc, func(c int) {
+		var files []string
+		for _, i := range chunks[c] {
+			files = append(files, filepath.Join(dir, fmt.Sprintf("h%d.go", hs[i].ID)))
+		}
+		ctx, cancel := context.WithTimeout(context.Background(), time.Duration(len(files))*70*time.Second)
+		defer cancel()
+		cmd := exec.CommandContext(ctx, self, append([]string{"c04-yaegi-batch"}, files...)...)
+		var out bytes.Buffer
+		cmd.Stdout = &out
+		cmd.Run()
+		dec := json.NewDecoder(&out)
+		for k := 0; k < len(files); k++ {
+			var rec struct {
+				File    string
+				Outcome outcome
+			}
+			if dec.Decode(&rec) != nil || rec.Outcome.End == "" {
+				break
+			}
+			i := chunks[c][k]
+			if rec.File != fmt.Sprintf("h%d.go", hs[i].ID) {
+				break
+			}
+			mu.Lock()
+			hs[i].impl, done[i] = rec.Outcome, true
+			mu.Unlock()
+		}
+	})
+	// programs whose batch died: each one alone, so that the crashing one is identified
+	var rest []int
+	for i := range hs {
+		if !done[i] {
+			rest = append(rest, i)
+		}
+	}
+	parallelMap(len(rest), 0, func(k int) {
+		i := rest[k]
+		hs[i].impl = runYaegiChild(hs[i].Src, 60*time.Second)
+		if strings.HasPrefix(hs[i].impl.End, "host-crash") {
+			mu.Lock()
+			sm.count("yaegi-host-crash")
+			mu.Unlock()
+		}
+	})
+	return nil
 }
